@@ -403,7 +403,7 @@ func (w *World) initSignature() {
 		"(assert (forall ((s Str)) (! (>= (gstr.len s) 0) :pattern ((gstr.len s)))))",
 		"(assert (forall ((a (Array Int Int)) (o Int) (l Int)) (! (=> (>= l 0) (= (gstr.len (gstr.of a o l)) l)) :pattern ((gstr.of a o l)))))",
 		"(assert (forall ((a Int) (i Int)) (! (and (= (elt$arr (elt a i)) a) (= (elt$idx (elt a i)) i) (= (root (elt a i)) (root a)) (= (subtag (elt a i)) 1) (< (elt a i) 0)) :pattern ((elt a i)))))",
-		"(assert (forall ((t Int) (v Int)) (! (and (> (box t v) 0) (= (dyntype (box t v)) t) (= (ifaceval (box t v)) v)) :pattern ((box t v)))))",
+		"(assert (forall ((t Int) (v Int)) (! (and (> (box t v) 0) (= (dyntype (box t v)) t) (= (ifaceval (box t v)) v) (= (root (box t v)) 0)) :pattern ((box t v)))))",
 		"(assert (= (root 0) 0))",
 	)
 	// ghost fields / vars from the spec files
